@@ -1,7 +1,7 @@
 """C04 — the parse is fixed by precedence, associativity and parentheses; independent of optional
 whitespace and of the quote character; / is a regex only where an operand is expected; and/or/in
 are names in operand position."""
-import itertools, random
+import itertools, re, random
 from ..engine import simple_run
 
 # the property's rows, tightest first (row index = precedence level); spec side, independent of the code
@@ -34,6 +34,8 @@ def cases(tier, seed):
         out.append(c)
         return c['id']
     ws = ['', ' ', '  ', '\n', '\t ']
+    WS1 = [' ', '\t', '\n', '\r', '\v', '\r\n']
+    WS = ['  ', '\n', ' \t', '\r', '\v', '\r\n', '\t', ' \r\n ']
     def chain_text(operands, ops, sp=' '):
         parts = [operands[0]]
         for o, x in zip(ops, operands[1:]):
@@ -52,8 +54,20 @@ def cases(tier, seed):
         a = add(plain, ('chain', 'plain'))
         b = add(full, ('chain', 'spec-parenthesised'), pair=a)
         # whitespace variations parse identically (compared pairwise below)
-        w = chain_text(operands, ops, rng.choice(['  ', '\n', ' \t']))
+        w = chain_text(operands, ops, rng.choice(WS))
         add(w, ('chain', 'ws'), pair=a)
+    # every whitespace character of the language (space, tab, LF, CR, VT, and CRLF) as the only separator, around every
+    # operator and every kind of operand; also leading and trailing
+    for sp in WS1:
+        for op in BINOPS:
+            for x, y in [('a', 'b'), ('$x', '$y'), ('and', 'or'), ('1', '2'), ('"s"', "'t'"), ('a[0]', '(b)'), ('$f(1)', 'in'), ('true', 'null'), ('é', '`q r`')]:
+                a = add('%s %s %s' % (x, op, y), ('ws-sweep', 'plain'))
+                add('%s%s%s%s%s' % (x, sp, op, sp, y), ('ws-sweep', 'ws'), pair=a)
+                add('%s%s %s %s%s' % (sp, x, op, y, sp), ('ws-sweep', 'ws'), pair=a)
+        for e in ['a.b[0].c', '$f(a, b)', '[a, b]', '{"k": a}', 'a ? b : c', '$x := a', 'function($p){$p}', 'a^(>b, c)', 'a ~> |b|{"k": c}, ["d"]|', 'a{"k": b}', '(a; b)', 'a[b = 1]']:
+            a = add(e, ('ws-sweep', 'plain'))
+            add(e.replace(' ', sp), ('ws-sweep', 'ws'), pair=a)
+            add(re.sub(r'(:=|~>|!=|<=|>=|\.\.|\^\(|[\[\](){},;:?.|=])', lambda m: sp + m.group(1) + sp, e), ('ws-sweep', 'ws'), pair=a)
     # longer random chains incl. ?: and :=
     for i in range(600 if tier == 'quick' else 40000):
         m = rng.randint(4, 12)
